@@ -278,4 +278,115 @@ def filterCallTV (numPairs denPairs : List (Int × Coef α)) (mem : Mem α) (zer
 
 end call
 
+/-! ## 4. `ZFilter` arithmetic on Stream coefficients (what builds the polynomials) -/
+section algebra
+open ALV.C07 (MPoly)
+variable [Add α] [Mul α] [Sub α] [Neg α] [Div α] [OfNat α 0] [OfNat α 1] [DecidableEq α]
+
+/-- a `ZFilter` object: `numpoly`, `denpoly` -/
+structure ZFT (α : Type) where
+  num : MPoly (Coef α)
+  den : MPoly (Coef α)
+
+/-- `LinearFilter.__init__` on two `Poly`s: `power = min(keys of den)` (ValueError when there is
+none); `if power != 0: numpoly *= Poly([0, 1]) ** -power; denpoly *= …` (`Poly.__mul__`) -/
+def ZFT.make (num den : MPoly (Coef α)) : Except Err (ZFT α) :=
+  match minKey den with
+  | none => .error .valueError
+  | some p =>
+    if p ≠ 0 then
+      let delta : MPoly (Coef α) := ALV.C07.mk [(-p, 1)]
+      .ok ⟨ALV.C07.mul num delta, ALV.C07.mul den delta⟩
+    else .ok ⟨num, den⟩
+
+/-- `Poly.__eq__` (`dicts_equal`): numbers compare by value, a Stream is equal only to itself —
+and every Stream object occurs once in the expressions modelled here -/
+def polyEqTV (p q : MPoly (Coef α)) : Bool :=
+  p.length == q.length &&
+    p.all (fun kv => match ALV.C07.find? q kv.1 with
+      | some w => (match kv.2, w with
+        | .const a, .const b => decide (a = b)
+        | _, _ => false)
+      | none => false)
+
+/-- `Poly.copy()`: the same terms, Streams tee-copied -/
+def polyCopy (p : MPoly (Coef α)) : MPoly (Coef α) := p.map (fun kv => (kv.1, kv.2.copy))
+
+/-- `ZFilter([other])` for a number or a Stream -/
+def ZFT.ofCoef (c : Coef α) : Except Err (ZFT α) := ZFT.make (ALV.C07.ofList [c]) (ALV.C07.mk [(0, 1)])
+
+/-- `z ** -k` -/
+def ZFT.zpow (k : Nat) : Except Err (ZFT α) := ZFT.make (ALV.C07.mk [((k : Int), 1)]) (ALV.C07.mk [(0, 1)])
+
+/-- `ZFilter.__add__` between filters: same-denominator shortcut, else cross products with copies -/
+def ZFT.add (f g : ZFT α) : Except Err (ZFT α) :=
+  if polyEqTV f.den g.den then ZFT.make (ALV.C07.add f.num g.num) f.den
+  else ZFT.make (ALV.C07.add (ALV.C07.mul f.num (polyCopy g.den)) (ALV.C07.mul g.num (polyCopy f.den)))
+         (ALV.C07.mul f.den g.den)
+
+/-- `ZFilterMeta.__unary__` -/
+def ZFT.neg (f : ZFT α) : Except Err (ZFT α) := ZFT.make (ALV.C07.neg f.num) f.den
+
+def ZFT.mul (f g : ZFT α) : Except Err (ZFT α) := ZFT.make (ALV.C07.mul f.num g.num) (ALV.C07.mul f.den g.den)
+
+/-- `ZFilter.__mul__` with a number / Stream: `ZFilter(self.numpoly * other, self.denpoly)` -/
+def ZFT.mulCoef (f : ZFT α) (c : Coef α) : Except Err (ZFT α) :=
+  ZFT.make (ALV.C07.mul f.num (ALV.C07.ofScalar c)) f.den
+
+def ZFT.div (f g : ZFT α) : Except Err (ZFT α) := ZFT.make (ALV.C07.mul f.num g.den) (ALV.C07.mul f.den g.num)
+
+/-- an expression that builds a filter: `z ** -k`, numbers, Streams, `+ - * /`, unary minus -/
+inductive Tree (α : Type) where
+  | z (k : Nat)
+  | c (v : α)
+  | s (items : List α)
+  | neg (t : Tree α)
+  | add (l r : Tree α)
+  | sub (l r : Tree α)
+  | mul (l r : Tree α)
+  | div (l r : Tree α)
+
+/-- a Python value met while evaluating: a number / Stream, or a ZFilter -/
+inductive Val (α : Type) where
+  | num (c : Coef α)
+  | filt (f : ZFT α)
+
+/-- Python's dispatch: filter ∘ filter; filter ∘ other (`__add__ / __sub__ / __mul__ / __truediv__`
+with a non-filter); other ∘ filter (`ZFilterMeta.__rbinary__`: `op(ZFilter([other]), self)`);
+number ∘ number (Stream operators) -/
+def evalTree : Tree α → Except Err (Val α)
+  | .z k => do pure (.filt (← ZFT.zpow k))
+  | .c v => pure (.num (.const v))
+  | .s items => pure (.num (.strm items))
+  | .neg t => do
+    match ← evalTree t with
+    | .num c => pure (.num (-c))
+    | .filt f => pure (.filt (← f.neg))
+  | .add l r => do
+    match ← evalTree l, ← evalTree r with
+    | .num a, .num b => pure (.num (a + b))
+    | .filt f, .filt g => pure (.filt (← f.add g))
+    | .filt f, .num b => pure (.filt (← f.add (← ZFT.ofCoef b)))
+    | .num a, .filt g => pure (.filt (← (← ZFT.ofCoef a).add g))
+  | .sub l r => do
+    match ← evalTree l, ← evalTree r with
+    | .num a, .num b => pure (.num (a - b))
+    | .filt f, .filt g => pure (.filt (← f.add (← g.neg)))
+    | .filt f, .num b => pure (.filt (← f.add (← ZFT.ofCoef (-b))))
+    | .num a, .filt g => pure (.filt (← (← ZFT.ofCoef a).add (← g.neg)))
+  | .mul l r => do
+    match ← evalTree l, ← evalTree r with
+    | .num a, .num b => pure (.num (a * b))
+    | .filt f, .filt g => pure (.filt (← f.mul g))
+    | .filt f, .num b => pure (.filt (← f.mulCoef b))
+    | .num a, .filt g => pure (.filt (← (← ZFT.ofCoef a).mul g))
+  | .div l r => do
+    match ← evalTree l, ← evalTree r with
+    | .num a, .num b => pure (.num (a / b))
+    | .filt f, .filt g => pure (.filt (← f.div g))
+    | .filt f, .num b => pure (.filt (← f.mulCoef (1 / b)))
+    | .num a, .filt g => pure (.filt (← (← ZFT.ofCoef a).div g))
+
+end algebra
+
 end ALV.C06
